@@ -245,7 +245,7 @@ static int build_decorated(uint64_t seed, const char *synthetic, char *path, siz
   static const char *names[] = {"CoreType", "FrequencyMaxMHz", "Model", "x"};
   for (unsigned k = 0; k < nk; k++) {
     hwloc_bitmap_t set = hwloc_bitmap_alloc();
-    int bycore = ncore > 0 && kx_chance(70);
+    int bycore = ncore > 0 && kx_chance(50);
     int n = bycore ? ncore : npu;
     for (int i = 0; i < n; i++) if ((unsigned) (kx_below(nk + (kx_chance(20) ? 1 : 0))) == k) {
       hwloc_obj_t o = hwloc_get_obj_by_type(t, bycore ? HWLOC_OBJ_CORE : HWLOC_OBJ_PU, (unsigned) i); hwloc_bitmap_or(set, set, o->cpuset); }
@@ -960,8 +960,11 @@ static int slow_args(struct args *a) {
  * the local-node selection and the best-attribute filter see non-trivial sets */
 static void gen_calc_attr(void) {
   static char line[1 << 16]; struct args a = {0}; char buf[512];
-  if (rng_chance(45)) { a_add(&a, "--cpukind"); gen_cpukind_arg(buf, sizeof buf); a_add(&a, buf); }
+  int with_kind = rng_chance(45);
+  if (with_kind) { a_add(&a, "--cpukind"); gen_cpukind_arg(buf, sizeof buf); a_add(&a, buf); }
   unsigned nloc = 1 + rng_below(2), k = rng_below(100);
+  /* the kind filter comes before --no-smt and --single: a kind that misses the first PU of a core / of the set tells the orders apart */
+  if (with_kind && rng_chance(40)) { static const char *f[] = {"--no-smt", "--no-smt=1", "--no-smt=0", "--single", "--single"}; a_add(&a, f[rng_below(5)]); }
   for (unsigned i = 0; i < nloc; i++) { gen_simple_loc(buf, sizeof buf, 0); if (i == 0 && (buf[0] == 'x' || buf[0] == '~' || buf[0] == '^')) memmove(buf, buf + 1, strlen(buf)); a_add(&a, buf); }
   if (k < 55) { add_mem_option(&a); if (rng_chance(35)) add_mem_option(&a); }
   else if (k < 70) { a_add(&a, rng_chance(50) ? "-N" : "-I"); a_add(&a, rng_chance(50) ? "cpukind" : "memorytier"); }
